@@ -86,11 +86,10 @@ pub(crate) fn string_from_offset(start: u64) -> BinResult<String> {
     let old_pos = reader.stream_position()?;
 
     reader.seek(SeekFrom::Start(start + offset as u64))?;
-    reader.seek(SeekFrom::Start(start))?;
-    let mut next_char = reader.read_le::<u8>().unwrap() as char;
+    let mut next_char = reader.read_le::<u8>()? as char;
     while next_char != '\0' {
         string.push(next_char);
-        next_char = reader.read_le::<u8>().unwrap() as char;
+        next_char = reader.read_le::<u8>()? as char;
     }
     reader.seek(SeekFrom::Start(old_pos))?;
     Ok(string)
